@@ -76,6 +76,27 @@ func c05Proxy(r *Run) {
 		modes[i] = T.Draw("mode", len(c05Modes))
 		seekable[i] = T.Bool("seekable", 0.4)
 	}
+	// a proxy that edits what it forwards: in mode DecodeFrame>EncodeFrame the decoded frame gets a warning
+	// (responses, v4+), a custom payload (requests, v4+) or a longer query text before it is encoded again
+	modify := make([]bool, n)
+	for i := range modify {
+		modify[i] = modes[i] == 4 && T.Bool("modify", 0.4)
+	}
+	// cut: the writer delivers only a prefix of one more frame and closes; the proxy must fail on it and
+	// must not forward anything for it
+	cut := T.Bool("cut", 0.2)
+	cutMode := T.Draw("cut.mode", len(c05Modes))
+	var cutBytes []byte
+	if cut {
+		cf := GenFrame(T, GenOpts{Version: v, Requests: true, Responses: true, MaxBytes: 400, HeaderFlags: true}, int16(T.Draw("stream", 120)))
+		var cb bytes.Buffer
+		if err := frameCodecFor(comp).EncodeFrame(cf, &cb); err == nil && cb.Len() > 1 {
+			cutBytes = cb.Bytes()[:1+T.Draw("cut.at", cb.Len()-1)]
+		} else {
+			cut = false
+		}
+	}
+	r.Config["cut"] = fmt.Sprint(cut)
 	a1, a2 := r.Net.Pair("A", r.Net.NewClientAddr(), mustAddr("10.0.0.3:9042"), optsA)
 	b1, b2 := r.Net.Pair("B", r.Net.NewClientAddr(), mustAddr("10.0.0.2:9042"), optsB)
 	wcodec, pcodec, rcodec := frameCodecFor(comp), frameCodecFor(comp), frameCodecFor(comp)
@@ -110,6 +131,10 @@ func c05Proxy(r *Run) {
 			s.end = int(a1.WrittenBytes())
 			sent = append(sent, s)
 		}
+		if cut && !writerFailed {
+			_, _ = a1.Write(cutBytes)
+			r.Faults["stream_cut_inside_a_frame"]++
+		}
 		_ = a1.Close()
 	})
 	type consumed struct {
@@ -120,10 +145,13 @@ func c05Proxy(r *Run) {
 		mode   int
 	}
 	var cons []consumed
+	modified := map[int]*frame.Frame{}
+	var cutErr error
+	cutTried := false
 	srcKinds := make([]int, n)
 	batch := make([]int, n)
 	for i := range srcKinds {
-		srcKinds[i] = T.DrawP("srckind", 3, 0.4) // 0 link, 1 bytes.Reader (seekable), 2 bytes.Buffer
+		srcKinds[i] = T.DrawP("srckind", 4, 0.4) // 0 link, 1 bytes.Reader (seekable), 2 bytes.Buffer, 3 a reader that returns its last bytes together with io.EOF
 		if bigRun && T.Bool("big.fromlink", 0.6) {
 			srcKinds[i] = 0 // big bodies are interesting where reads are short: on the link
 		}
@@ -155,7 +183,7 @@ func c05Proxy(r *Run) {
 			kind := srcKinds[i]
 			if kind == 0 {
 				before := src.n
-				err := c05Forward(pcodec, modes[i], src, b1)
+				err := c05ForwardM(pcodec, modes[i], src, b1, modify[i], &modified, i)
 				r.Yield("proxy.forwarded")
 				if src.n-before > 65536+9 {
 					r.Probes["body_over_64KiB_from_link/"+c05Modes[modes[i]]]++
@@ -196,6 +224,11 @@ func c05Proxy(r *Run) {
 				br := bytes.NewReader(all)
 				in = br
 				posOf = func() int64 { p, _ := br.Seek(0, io.SeekCurrent); return p }
+			} else if kind == 3 {
+				de := &dataEOFReader{data: all, chunk: 1 + T.Draw("dataeof.chunk", 700)}
+				in = de
+				posOf = func() int64 { return int64(de.pos) }
+				kindName = "reader returning data with io.EOF"
 			} else {
 				bb := bytes.NewBuffer(all)
 				total := int64(len(all))
@@ -233,7 +266,7 @@ func c05Proxy(r *Run) {
 				r.Probes["mode:batch convert then encode"] += k
 			} else {
 				for j := 0; j < k; j++ {
-					err := c05Forward(pcodec, modes[i+j], in, b1)
+					err := c05ForwardM(pcodec, modes[i+j], in, b1, modify[i+j], &modified, i+j)
 					r.Yield("proxy.forwarded")
 					if err != nil {
 						proxyErr, proxyAt = err, i+j
@@ -248,6 +281,12 @@ func c05Proxy(r *Run) {
 				r.Probes["multi_frame_buffers"]++
 			}
 			i += k
+		}
+		if cut {
+			// one more frame, of which only a prefix ever arrives: straight from the link
+			cutErr = c05Forward(pcodec, cutMode, src, b1)
+			cutTried = true
+			r.Yield("proxy.cut")
 		}
 	})
 	r.Go("reader", func() {
@@ -287,12 +326,22 @@ func c05Proxy(r *Run) {
 			r.Violate(P, "consumption", "stream:"+c05Modes[c.mode], "%s on the link: after frame %d (%s) %d bytes had been consumed; the frame spans [%d,%d)", c05Modes[c.mode], i, sr.kind, c.srcPos, sr.start, sr.end)
 		}
 	}
+	if cut && cutTried && cutErr == nil {
+		r.Violate(P, "proxy", "truncated-frame-accepted:"+c05Modes[cutMode], "%s returned no error for a frame of which only the first %d bytes arrived before the stream ended (version %v, compression %v)", c05Modes[cutMode], len(cutBytes), v, comp)
+	}
 	// end to end: the reader sees exactly the non-dropped frames, equal to what was written, in order
 	var want []sentRec
 	for i, s := range sent {
 		if modes[i] != 5 {
+			if m := modified[i]; m != nil {
+				s.f = m
+			}
 			want = append(want, s)
 		}
+	}
+	// what the proxy put on link B is exactly one well-framed frame per forwarded frame, nothing more
+	if fs, rest, err := RSplitFrames(b1.Tap().Sent); err != nil || len(rest) != 0 || len(fs) != len(want) {
+		r.Violate(P, "end-to-end", "forwarded-stream-not-framed", "the proxy forwarded %d frames; split by declared lengths, its output holds %d frames and %d trailing bytes (err=%v, cut=%v)", len(want), len(fs), len(rest), err, cut)
 	}
 	if len(got) != len(want) {
 		r.Violate(P, "end-to-end", "count-mismatch", "reader decoded %d frames, %d were forwarded (reader error: %v)", len(got), len(want), readErr)
@@ -310,11 +359,18 @@ func c05Proxy(r *Run) {
 			break
 		}
 		b := stream[s.start:s.end]
-		f1, e1 := pcodec.DecodeFrame(bytes.NewReader(b))
-		var f2 *frame.Frame
-		raw, e2 := pcodec.DecodeRawFrame(bytes.NewReader(b))
-		if e2 == nil {
-			f2, e2 = pcodec.ConvertFromRawFrame(raw)
+		var f1, f2 *frame.Frame
+		var e1, e2 error
+		if guardHuge(func() {
+			f1, e1 = pcodec.DecodeFrame(bytes.NewReader(b))
+			var raw *frame.RawFrame
+			raw, e2 = pcodec.DecodeRawFrame(bytes.NewReader(b))
+			if e2 == nil {
+				f2, e2 = pcodec.ConvertFromRawFrame(raw)
+			}
+		}) {
+			r.Probes["huge_alloc_refused_in_oracle"]++
+			break
 		}
 		if (e1 == nil) != (e2 == nil) {
 			r.Violate(P, "routes-agree", "error-differs:"+s.kind, "frame %d (%s): DecodeFrame err=%v, DecodeRawFrame+ConvertFromRawFrame err=%v", i, s.kind, e1, e2)
@@ -542,4 +598,59 @@ func c05MaxBytes(a, b LinkOpts) int {
 		return 1500
 	}
 	return 20000
+}
+
+// dataEOFReader returns its last bytes TOGETHER with io.EOF, as io.Reader allows (tls.Conn after
+// close_notify, HTTP bodies and iotest.DataErrReader do).
+type dataEOFReader struct {
+	data  []byte
+	pos   int
+	chunk int
+}
+
+func (d *dataEOFReader) Read(p []byte) (int, error) {
+	if d.pos >= len(d.data) {
+		return 0, io.EOF
+	}
+	n := len(p)
+	if n > d.chunk {
+		n = d.chunk
+	}
+	if n > len(d.data)-d.pos {
+		n = len(d.data) - d.pos
+	}
+	copy(p, d.data[d.pos:d.pos+n])
+	d.pos += n
+	if d.pos == len(d.data) {
+		return n, io.EOF
+	}
+	return n, nil
+}
+
+// c05ForwardM is c05Forward with the editing variant of DecodeFrame>EncodeFrame.
+func c05ForwardM(c frame.RawCodec, mode int, in io.Reader, out io.Writer, modify bool, modified *map[int]*frame.Frame, idx int) error {
+	if mode != 4 || !modify {
+		return c05Forward(c, mode, in, out)
+	}
+	f, err := c.DecodeFrame(in)
+	if err != nil {
+		return err
+	}
+	v := f.Header.Version
+	switch {
+	case f.Header.IsResponse && v >= primitive.ProtocolVersion4:
+		f.SetWarnings(append(append([]string{}, f.Body.Warnings...), "added by the proxy"))
+	case !f.Header.IsResponse && v >= primitive.ProtocolVersion4:
+		cp := map[string][]byte{"proxy": {1, 2, 3}}
+		for k, val := range f.Body.CustomPayload {
+			cp[k] = val
+		}
+		f.SetCustomPayload(cp)
+	default:
+		if q, ok := f.Body.Message.(*message.Query); ok {
+			q.Query += " /* proxied */"
+		}
+	}
+	(*modified)[idx] = f.DeepCopy()
+	return c.EncodeFrame(f, out)
 }
